@@ -144,6 +144,24 @@ let check inp obs =
           Printf.sprintf "%s model=%s" (if prop then "" else if obs_panic then "Process panicked"
                                         else "importer handed an orphan/duplicate or a forged/unlinked response accepted")
             (if String.length m > 600 then String.sub m 0 600 ^ "..." else m) }
+  | ["imp"; hdrs; known; fin; blocks] ->
+    (* the environment model against the real blockImporter *)
+    let hd = parse_headers hdrs in
+    let kn = N0 :: (if known = "-" then [] else List.map n_of_hex (split ',' known)) in
+    let e = { known = kn; fin = n_of_hex fin } in
+    let ((evs, _), err) = import_all e (parse_blocks hd blocks) in
+    let m = join "," (List.map ev_str evs) ^ " " ^ (if err then "err" else "ok") in
+    let has f = List.exists f evs in
+    { prop_ok = true; model_eq = (m = obs);
+      nontrivial = has (function EImport _ -> true | _ -> false); finding = "-";
+      tags = String.concat "," (List.filter (fun x -> x <> "") [ "importer";
+        (if has (function EImport _ -> true | _ -> false) then "importer-import" else "");
+        (if has (function ESkip _ -> true | _ -> false) then "importer-skip" else "");
+        (if has (function EOrphan _ -> true | _ -> false) then "importer-orphan" else "");
+        (if has (function EDup _ -> true | _ -> false) then "importer-dup" else "");
+        (if has (function ENothing _ -> true | _ -> false) then "importer-nothing" else "");
+        (if has (function EFinal _ -> true | _ -> false) then "importer-final" else "") ]);
+      detail = if m = obs then "" else "model=" ^ m }
   | _ -> fail "C32: bad input %s" inp
 
 let () = run_driver check
